@@ -37,7 +37,7 @@ PROPS['C01'] = dict(
     theorems=['walk_matches', 'reachable_tries_wf', 'walk_history_spec', 'match_independent'],
     families=[dict(name='tries', corr='Tries', runs=[('x01', 1, 1), ('rsub', 300, 5000)]),
               dict(name='crdt', corr='DState', runs=[('subs', 200, 3000)]),
-              dict(name='broker', corr='Broker', runs=[('route', 40, 500)], par=8)],
+              dict(name='broker', corr='Broker', runs=[('route', 40, 500), ('pipeline', 24, 300)], par=8)],
     rule='x01: every filter of <=3 (quick) / <=4 (thorough) levels over {a,b,c,+,#,""} against every topic of the same '
          'depth over {a,b,c,""}, once with all filters in one tree and once with each filter alone in a fresh tree; '
          'random: subscribe/unsubscribe/re-subscribe histories as for C19. Non-trivial: >=1 mutation and >=1 query.',
@@ -107,7 +107,7 @@ PROPS['C17'] = dict(
     theorems=['prefix_trim', 'no_cross_match', 'same_tenant_match'],
     families=[dict(name='mount', corr='Mount', runs=[('random', 150, 2000)]),
               dict(name='crdt', corr='DState', runs=[('tenants', 150, 2500)]),
-              dict(name='broker', corr='Broker', runs=[('tenants', 32, 400)], par=8)],
+              dict(name='broker', corr='Broker', runs=[('tenants', 32, 400), ('wills', 16, 200)], par=8)],
     level_text='Theorems (matching level): trimming undoes prefixing for every mount point and topic; for mount points that are single levels other than +/#, no filter of one mount point (bare #, +/... included) matches any topic of another, and inside one mount point matching is matching of what the clients wrote. Tied to the Go code through Session.PrefixMountPoint/TrimMountPoint on random strings and through ByPattern / retained Get on a real replica holding the same filters and topics under 2-3 mount points. The delivery-level statement (publishes, retained replays and wills on client connections; client identifiers scoped by mount point) is exercised end-to-end by the broker families.',
     level_note='Trusted: Coq kernel + vm_compute; harness, emitter, evaluator. Premise mp_ok: mount points are non-empty single levels other than + and # (operator input that wasp does not validate).',
     rule='mount: 21 (mount point, topic) pairs per case, topics of 1-5 levels over {a,b,"",+,#,dev,long-level-name,non-ASCII}, 10% odd mount points; tenants: 3-7 filters of <=3 levels over {a,+,#,"",b} plus # per mount point, 1-3 retained topics each, 12 queries. Non-trivial: more than one pair / >=2 updates and a check.',
@@ -127,9 +127,9 @@ def _broker(runs):
     return dict(name='broker', corr='Broker', runs=runs, par=8)
 
 PROPS['C02'] = dict(theorems=[], families=[_broker([('pipeline', 40, 400)])], rule='pipeline: 1-3 publishers and subscribers, 1-12 publishes (QoS mix) from the very first log entry on; thorough: every 8th case 520 publishes (segment roll).')
-PROPS['C03'] = dict(theorems=[], families=[_broker([('acks', 48, 600)])], rule='acks: 1-3 sessions subscribed at QoS 1/2, 1-4 messages, per in-flight message the client acknowledges / stays silent for sweeps / answers with the wrong type or an unknown identifier / ends its session, interleaved; then a fresh subscriber shows which identifiers are reusable.')
+PROPS['C03'] = dict(theorems=[], families=[_broker([('acks', 64, 800)])], rule='acks: 1-3 sessions subscribed at QoS 1/2, 1-4 messages, per in-flight message the client acknowledges / stays silent for sweeps / answers with the wrong type or an unknown identifier / ends its session, interleaved; then a fresh subscriber shows which identifiers are reusable.')
 PROPS['C05'] = dict(theorems=[], families=[_broker([('inbound', 48, 600)])], rule='inbound: 2 nodes, PUBLISH QoS 0/1/2 with fresh and repeated identifiers, PUBREL (repeated, unknown), sweeps, injected local-log and remote-node failures.')
-PROPS['C11'] = dict(theorems=[], families=[_broker([('lifecycle', 48, 600)])], rule='lifecycle: 1-2 nodes, sessions with subscribe/unsubscribe/ping/publish ending by DISCONNECT, EOF, read deadline, protocol error or staying connected; refused CONNECTs; listings at the end.')
-PROPS['C12'] = dict(theorems=[], families=[_broker([('takeover', 40, 500)])], rule='takeover: chains of 2-3 connections sharing a client identifier on 1-2 nodes, old sessions ping/subscribe/disconnect/lose the connection, gossip in between; a connection with the same identifier in another mount point.')
+PROPS['C11'] = dict(theorems=[], families=[_broker([('lifecycle', 48, 600), ('takeover', 24, 300)])], rule='lifecycle: 1-2 nodes, sessions with subscribe/unsubscribe/ping/publish ending by DISCONNECT, EOF, read deadline, protocol error or staying connected; refused CONNECTs; listings at the end.')
+PROPS['C12'] = dict(theorems=[], families=[_broker([('takeover', 40, 500), ('takeover3', 8, 40)])], rule='takeover: chains of 2-3 connections sharing a client identifier on 1-2 nodes, old sessions ping/subscribe/disconnect/lose the connection, gossip in between; a connection with the same identifier in another mount point.')
 PROPS['C13'] = dict(theorems=[], families=[_broker([('wills', 24, 300)])], rule='wills: will QoS x retain x topic (empty levels, other tenant name) x ending (EOF, deadline, protocol error, DISCONNECT, host failure with and without prior DISCONNECT) x hosting node, watchers on every node and in another mount point.')
 PROPS['C14'] = dict(theorems=[], families=[_broker([('cluster', 40, 500)])], rule='cluster: 2-3 nodes, 0-2 subscribers per node with filters t/#, t/+, u, publisher on any node, every subset of other nodes unreachable, topics t/a, u, v.')
